@@ -62,6 +62,9 @@ func (ctx *_OpContextType) checkArgImm(xlen int, as abi.As, arg *abi.AsArgument,
 	}
 
 	if ctx.HasShamt {
+		if ctx.Opcode == _OpBase_OP_IMM_32 {
+			xlen = 32 // SLLIW/SRLIW/SRAIW: 5-bit shamt, imm[5]=1 is reserved
+		}
 		switch xlen {
 		case 32:
 			if err := immFitsRange(int64(arg.Imm), _ImmRanges_Shamt32); err != nil {
